@@ -138,16 +138,23 @@ TEXT["C01"] = dict(
         "rule, table encryption). The model is tied to the code BOTH WAYS on real archive bytes: the Lean reader reads what "
         "the Rust builder wrote across the configuration product, the Rust reader reads what the Lean writer wrote, plus the "
         "property oracle (every spelling, never-added names, listing, sizes) on the implementation."),
-  note=("PARTIAL: codecs are a table (sparse is proved in C03); of V3/V4 the bit-packed extended block table is modelled "
-        "and proved (bet_roundtrip: every row reads back exactly at every entry width; bet_columns_independent for foreign "
-        "widths) and tied byte for byte to the builder's table and to the reader on arbitrary tables; V3/V4 headers and the "
-        "HET hash table are covered by the correspondence and the oracle, not by a theorem. Four defects repaired (all-raw "
+  note=("PARTIAL: codecs are a table (sparse is proved in C03); of V3/V4 both extended tables are modelled and "
+        "proved: the bit-packed block-entry table (bet_roundtrip: every row reads back exactly at every entry width; "
+        "bet_columns_independent for foreign widths) and the hash-entry table with the lookup through it (het_build_total: "
+        "the builder always completes it; het_finds: every added file is among the candidates of its own lookup; "
+        "het_resolves_own / het_absent: the candidate confirmed by the 64-bit name hashes is the file itself, a never-added "
+        "name resolves to nothing; Jenkins hashlittle2 is an input, supplied per name by the harness), each tied byte for "
+        "byte to the builder's tables and to the reader's lookups; V3/V4 headers and table compression are covered by the "
+        "correspondence and the oracle only. Five defects repaired (D63: the free-slot marker 0xFF of the hash-entry table "
+        "is a valid name byte - one name in 128 was unreachable through the extended tables and broke its probe chain; found "
+        "because the proof of het_finds needed nameHash1 != FREE; the others: all-raw "
         "multi-sector files read back with their offset table / garbage when encrypted; failed sector decompression became "
         "zeros; D58 the builder filled the BET name-hash array with a different Jenkins variant than the reader checks; "
         "D59 extended block-table entries wider than 64 bits lost their high bits or overflowed: V3/V4 archives over "
-        "about 1 MB read back wrong bytes or could not be built); known finding D2 (ratio limits reject own output) "
+        "about 1 MB read back wrong bytes or could not be built); also in the model's EXTRA rule: names whose table byte is "
+        "0xFF / 0x80, colliding pairs. Known finding D2 (ratio limits reject own output) "
         "shared with C03."),
-  technique="Lean 4 proof (whole-archive write/read composition by invariant + byte-level layout lemmas; cipher and probing lemmas) + two-way differential correspondence on real archive bytes")
+  technique="Lean 4 proof (whole-archive write/read composition by invariant + byte-level layout lemmas; cipher and probing lemmas; extended tables: bit-packing as one little-endian number, probing invariant) + two-way differential correspondence on real archive bytes")
 TEXT["C02"] = dict(
   text=("An independent reference implementation (Lean model of the published layout, probing, key derivation and cipher "
         "with Spec constants; CPython zlib/bz2 as codecs) is run against the library in both directions on real archive "
